@@ -27,7 +27,7 @@ TRUSTED = pipecheck.TRUSTED
 ASSUMPTIONS = pipecheck.ASSUMPTIONS
 
 
-def one(ctx, res: Result, hist, cfg, batch, faults=(), delete_root=False, spelling="abs"):
+def one(ctx, res: Result, hist, cfg, batch, faults=(), delete_root=False, spelling="abs", probe_dirs=False):
     def before_close(run):
         run.drain()
         bad = []
@@ -55,6 +55,13 @@ def one(ctx, res: Result, hist, cfg, batch, faults=(), delete_root=False, spelli
             if not any(e[0] == "FileCreated" and e[1] == os.fsencode(probe) for e in evs):
                 bad.append(("later-change-unreported", "a file created in the root after the history is not reported",
                             [[e[0], e[1].decode('latin1')] for e in evs]))
+            if probe_dirs:
+                # monitoring of a SUB-TREE must not die silently either: histories that respect C02's pacing condition
+                # (the rename / arrival generators) end with a probe in every directory of the tree
+                for b in pipeprops.oracle_probes(run):
+                    if b["law"] == "probe-not-reported":
+                        bad.append(("deeper-change-unreported", f"a file created in {b['dir']} after the history is not reported "
+                                    f"(how the directory got there: {b['provenance']})", b["got"]))
         return bad
     recursive, full, kind = cfg
     run = pipe.Run(recursive=recursive, full=full, path_kind=kind, root_spelling=spelling)
@@ -69,7 +76,7 @@ def one(ctx, res: Result, hist, cfg, batch, faults=(), delete_root=False, spelli
     finally:
         stopped = run.close()
     meta = {**pipecheck.meta_of(hist, cfg), "add_watch_faults": list(faults), "delete_root": delete_root,
-            "root_spelling": spelling}
+            "root_spelling": spelling, "probe_dirs": probe_dirs}
     res.evaluations += 1
     pipecheck.hist_stats(res, hist, run)
     res.hist("mode", ("delete-root/" + spelling) if delete_root else ("faults" if faults else "plain"))
@@ -184,7 +191,8 @@ def run(ctx) -> Result:
         one(ctx, res, hist, cfg, batch, faults=faults)
     for c in ctx.corpus():
         one(ctx, res, c["history"], (c["recursive"], c["full_events"], c["path_kind"]), batch,
-            faults=c.get("add_watch_faults", ()), delete_root=c.get("delete_root", False), spelling=c.get("root_spelling", "abs"))
+            faults=c.get("add_watch_faults", ()), delete_root=c.get("delete_root", False), spelling=c.get("root_spelling", "abs"),
+            probe_dirs=c.get("probe_dirs", False))
     polling_root_gone(ctx, res)
     n = 150 if not ctx.thorough else 2500
     for i in range(n):
@@ -206,7 +214,7 @@ def run(ctx) -> Result:
             k = rng.randint(0, 5)
             one(ctx, res, hist, cfg, batch, faults=(k,) if rng.random() < 0.7 else (k, k + 1))
         else:
-            one(ctx, res, hist, cfg, batch)
+            one(ctx, res, hist, cfg, batch, probe_dirs=(i % 7 in (3, 5)))
     pipecheck.check_model(res, "C07", batch)
     api_calls(ctx, res)
     return res
@@ -248,7 +256,8 @@ def replay(ctx, obj) -> int:
     res = Result()
     batch = []
     one(ctx, res, case["history"], (case["recursive"], case["full_events"], case["path_kind"]), batch,
-        faults=case.get("add_watch_faults", ()), delete_root=case.get("delete_root", False), spelling=case.get("root_spelling", "abs"))
+        faults=case.get("add_watch_faults", ()), delete_root=case.get("delete_root", False), spelling=case.get("root_spelling", "abs"),
+        probe_dirs=case.get("probe_dirs", False))
     pipecheck.check_model(res, "C07", batch)
     for f in res.failures:
         print("FAIL:", f.what, f.observed)
